@@ -2,7 +2,8 @@
 import re
 
 SEG_FIRST = re.compile(r"\A(?:[a-z0-9_-]{3,250}|id)\Z")
-SEG_NEXT = re.compile(r"\A(?:\[\d+\]|[a-z0-9_-]{1,250})\Z")
+# later steps may be dictionary keys (hashes.SHA-256, environment_variables.PATH): capital letters belong to the syntax there
+SEG_NEXT = re.compile(r"\A(?:\[\d+\]|[a-zA-Z0-9_-]{1,250})\Z")
 
 
 def walk(value, prefix=()):
